@@ -484,3 +484,105 @@ reg(Contract(
                                   ghost_init=lambda c: {k: c.st.ghost[k] for k in ("written", "WRITTEN", "buf_pos", "buf_vel", "buf_box")} | stop_ghost(c))},
     overrides={"write_xyz_trajectory": Contract("write_xyz_trajectory", params=["filename", "pos", "vel", "names", "box", "step", "append"], defaults={"step": None, "append": True}, custom=_tmd_write)},
 ))
+
+
+# ------------------------------------------------------------------ the RESULT contract of propagate, derived for one driver loop (GROMACS) from the proved add_to_path rule
+# contracts/engine.py ASSUMES for the move logic (C09/C11): after propagate all frames but the last lie inside [left, right], the
+# path never exceeds maxlen, success <=> the last frame is outside and the path is not full.  Here that is PROVED for the real
+# GROMACS frame loop with the heap model of Path/System and EngineBase.add_to_path replaced by its proved contract (summary).
+from .common import ENGBASE_PY as _EB, fld as _fld, mk_path as _mk_path, op as _op, pplen as _pplen, sys_fields as _sysf, wf_path as _wf_path  # noqa: E402
+from .path import PATH_SCALARS as _PS  # noqa: E402
+from . import tis_moves as _tm  # noqa: E402
+from pyvc.values import Ref as _Ref  # noqa: E402
+
+
+def _atp_summary():
+    src = _tm.REG["EngineBase.add_to_path"]
+    return Contract(src.key, src=src.src, cases=src.cases, requires=src.requires, ensures=src.ensures, modifies=["Path.pp", "Path.pp#len"],
+                    result=("tuple", "str", "bool", "bool", "bool"))
+
+
+class HeapDriver(DriverSelf):
+    """Like DriverSelf, but phase points are System objects in the heap and add_to_path is the proved contract."""
+
+    def pyvc_method(self, name, args, kwargs, st, ex, node):
+        if name == "calculate_order":
+            o = fresh("order", REAL)
+            g = st.ghost
+            st.ghost = dict(g, TRAJ=z3.Store(g["TRAJ"], _iv(st.env["i"]), o))
+            yield st, OrderVec(o)
+            return
+        if name == "snapshot_to_system":
+            snap = args[1]
+            r = st.new_ref("System")
+            st.hset(r, "order0", snap["order"].order0)
+            yield st, r
+            return
+        if name == "add_to_path":
+            g = st.ghost
+            ex.oblige(st, f"no_frame_is_appended_after_the_stop@{node.lineno}", z3.Not(g.get("stopped", z3.BoolVal(False))))
+            for st2, res in ex.call_contract(ex.contracts["EngineBase.add_to_path"], list(args), kwargs, st, node):
+                status, success, stop, add = res
+                st2.ghost = dict(st2.ghost, stopped=stop, last_success=success, appended=st2.ghost.get("appended", z3.IntVal(0)) + 1)
+                yield st2, res
+            return
+        raise Unsupported(f"self.{name}")
+
+
+def _gsr_make(ex, st):
+    n = fresh("n", INT)
+    st.assume(n >= 0)
+    rev = fresh("reverse", BOOL)
+    p = _mk_path(st, "path")
+    st.assume(_pplen(st, p) == 0, _fld(st, "Path.maxlen", p.term) >= 1)
+    st.ghost = dict(st.ghost, TRAJ=fresh("TRAJ", z3.ArraySort(INT, REAL)), stopped=z3.BoolVal(False), last_success=z3.BoolVal(False), appended=z3.IntVal(0))
+    return {"self": HeapDriver("i"), "gro": GroObj(n), "system": SysObj(rev), "msg_file": Opaque("msg_file"), "trr_file": "traj.trr", "reverse": rev,
+            "path": p, "left": fresh("left", REAL), "right": fresh("right", REAL), "status": Opaque("s"), "success": False}
+
+
+def _inside(st, p, j, L, R):
+    return z3.And(L <= _op(st, p, j), _op(st, p, j) <= R)
+
+
+def _gsr_inv(ctx):
+    g, p = ctx.st.ghost, ctx.v("path")
+    L, R, it = ctx.v("left"), ctx.v("right"), ctx.it
+    M = _fld(ctx.st, "Path.maxlen", p.term)
+    return stop_inv(ctx) + [
+        ("one_frame_per_iteration", z3.And(_pplen(ctx.st, p) == it, g["appended"] == it)),
+        ("room_left_while_running", z3.Implies(it > 0, it < M)),
+        ("maxlen_unchanged", M == _fld(ctx.old, "Path.maxlen", p.term)),
+        ("all_frames_so_far_inside", forall_range(0, it, lambda j: _inside(ctx.st, p, j, L, R))),
+        ("frames_carry_the_computed_orders", forall_range(0, it, lambda j: _op(ctx.st, p, j) == z3.Select(g["TRAJ"], j))),
+        ("path_well_formed", _wf_path(ctx.st, p)),
+        ("no_success_without_a_stop", z3.Not(g["last_success"])),
+        ("success_flag_initially_false", z3.Implies(it == 0, z3.Not(ctx.v("success") if z3.is_expr(ctx.v("success")) else z3.BoolVal(bool(ctx.v("success")))))),
+    ]
+
+
+def _gsr_post(c):
+    g, p = c.st.ghost, c.v("path")
+    L, R = c.v("left"), c.v("right")
+    n, M = _pplen(c.st, p), _fld(c.st, "Path.maxlen", p.term)
+    sv = c.v("success")
+    sv = sv if z3.is_expr(sv) else z3.BoolVal(bool(sv))
+    last_out = z3.Or(_op(c.st, p, n - 1) < L, _op(c.st, p, n - 1) > R)
+    return [
+        ("all_frames_but_the_last_are_inside", forall_range(0, n - 1, lambda j: _inside(c.st, p, j, L, R))),
+        ("path_never_exceeds_maxlen", n <= M),
+        ("success_iff_the_last_frame_is_outside_and_the_path_is_not_full", z3.Implies(n >= 1, sv == z3.And(last_out, n != M))),
+        ("no_success_on_an_empty_trajectory", z3.Implies(n == 0, z3.Not(sv))),
+        ("frame_k_carries_the_order_computed_for_frame_k", forall_range(0, n, lambda j: _op(c.st, p, j) == z3.Select(g["TRAJ"], j))),
+        ("stops_at_the_first_frame_outside_or_when_full", z3.Or(g["stopped"], n == c.v("gro").n)),
+    ]
+
+
+reg(Contract(
+    "GromacsEngine._propagate_from#stop_rule", src=(GMX_PY, "GromacsEngine._propagate_from"), slice=_loop_over("data"),
+    cases=[Case("sym", _gsr_make)],
+    ensures=[("propagate_result", _gsr_post)],
+    canaries=[("never_succeeds", lambda c: z3.Not(c.v("success")) if z3.is_expr(c.v("success")) else z3.BoolVal(not c.v("success")))],
+    loops={"for:i,data": LoopSpec(_gsr_inv, modifies=_sysf() + ["Path.pp", "Path.pp#len"], allocates=True,
+                                  ghost_init=lambda c: dict(stop_ghost(c), TRAJ=c.st.ghost["TRAJ"]))},
+    overrides={"EngineBase.add_to_path": _atp_summary()},
+))
